@@ -57,9 +57,10 @@ def required_cells(tier):
 def _build(desc):
     seed = desc["seed"] % 100000
     if desc["family"] == "bm":
-        return streams.make_bm(desc["name"], desc["budget"], desc["w"], seed)
-    bm = streams.make_bm(desc["bm"], desc["budget"], desc["w"], seed + 1) if desc["bm"] else None
-    extra = {}
+        return streams.make_bm(desc["name"], desc["budget"], desc["w"], seed, **streams.variant_kwargs(desc["name"], desc["seed"]))
+    bm = streams.make_bm(desc["bm"], desc["budget"], desc["w"], seed + 1,
+                         **streams.variant_kwargs(desc["bm"], desc["seed"] + 1)) if desc["bm"] else None
+    extra = dict(streams.variant_kwargs(desc["name"], desc["seed"]))
     if desc["name"] == "StreamDensityBasedAL":
         extra["window_size"] = max(2, desc["w"])
     if desc["name"].startswith("Cognitive"):
